@@ -108,7 +108,7 @@ def run_cfg(chk, facts, cfg):
     kp = sm.kahan['path']
     cnt = {'impls': 0, 'kernel': 0, 'acc': 0}
     from ..overrides import obligation as no_overrides
-    no_overrides(chk, PID, facts, sfx, [kp], 'KahanSum operators')
+    no_overrides(chk, PID, facts, sfx, [kp], 'KahanSum operators', traits=('Add', 'AddAssign', 'Default', 'From', 'Sum'))
 
     def summ(fn, names, args):
         sx = Summarizer(facts, assume_no_overflow=True)
